@@ -36,7 +36,7 @@ func genC10(t *rapid.T) c10Case {
 	ids := []string{"r1", "r2", "r3"}
 	for i := 0; i < n; i++ {
 		l := fmt.Sprintf("op%d", i)
-		kinds := []string{"add", "add", "add", "rem", "disable", "disable", "enable", "reload", "event", "event", "event", "event", "locOff", "locOn"}
+		kinds := []string{"add", "add", "add", "rem", "disable", "disable", "enable", "reload", "event", "event", "event", "event", "locOff", "locOn", "fact"}
 		if c.Parent {
 			kinds = append(kinds, "padd", "prem", "pdisable", "penable")
 		}
@@ -44,6 +44,9 @@ func genC10(t *rapid.T) c10Case {
 		switch k := rapid.SampledFrom(kinds).Draw(t, l+".kind"); k {
 		case "add":
 			c.Ops = append(c.Ops, op{K: "addRule", Loc: "L", Id: id, N: int64(rapid.IntRange(0, len(c10Whens)-1).Draw(t, l+".when"))})
+		case "fact":
+			// a plain fact written under a rule id replaces the rule
+			c.Ops = append(c.Ops, op{K: "addFact", Loc: "L", Id: id})
 		case "rem":
 			c.Ops = append(c.Ops, op{K: "remRule", Loc: "L", Id: id})
 		case "disable":
@@ -133,6 +136,21 @@ func runC10(c c10Case) *vlib.Outcome {
 					pendingOverwrite = true
 					// whether a disabled flag survives an in-place
 					// overwrite is not specified
+					if _, flagged := w.model["L"].Items[propId(x.Id, "disabled")]; flagged {
+						w.model["L"].Unspec[propId(x.Id, "disabled")] = true
+					}
+				}
+			case "addFact":
+				if !locOn {
+					_, err := w.locs[x.Loc].AddFact(newCtx(), x.Id, core.Map{"plain": "fact"})
+					expectDisabled(err, "AddFact")
+					break
+				}
+				_, had := ml.Items[x.Id]
+				if r := w.addFact(x.Loc, x.Id, M{"plain": "fact"}); r.Err != nil {
+					o.Fail("ADD_ERROR", "%s: AddFact failed: %v", when, r.Err)
+				} else if had {
+					pendingOverwrite = true
 					if _, flagged := w.model["L"].Items[propId(x.Id, "disabled")]; flagged {
 						w.model["L"].Unspec[propId(x.Id, "disabled")] = true
 					}
